@@ -227,7 +227,7 @@ def run(facts, res):
             else:
                 res.violation("D1", key, "%s: elements of an unordered %s iteration (%s at %s) reach an order-sensitive sink: %s" % (
                     body.path, kind, fl.src[4].name, where, why), where)
-    res.floor("D1", "unordered iteration sites", n_src, 20)
+    res.floor("D1", "unordered iteration sites", n_src, 10)
     for k in FROZEN:
         if k not in used and not (k.startswith("<filesystemadapter") and "filesystemadapter" not in facts.features):
             res.note("frozen flow no longer present: " + k)
@@ -286,7 +286,7 @@ def run(facts, res):
             if not ok:
                 res.violation("D3", "%s|cache-key-not-digest-of-object" % b.path,
                               "%s stores an object under a revision whose digest is not digest_object of that object: a cache hit would differ from a storage read" % b.path, b.loc(t.line))
-    res.floor("D3", "DataStorage::write_object call sites", n3, 3)
+    res.floor("D3", "DataStorage::write_object call sites", n3, 1)
     wo = facts.body("datastorage::DataStorage::write_object")
     ro = facts.body("datastorage::DataStorage::read_object")
     for b, nm in ((wo, "put"), (ro, "get")):
